@@ -2,7 +2,7 @@
 import ast
 
 from ..model import AnchorError, call_name, const_str, dotted, src
-from ..rules import FuncView, suffix_match
+from ..rules import func_qual_of, FuncView, suffix_match
 
 EXPLANATION = (
     "Override preservation (T12): every implementation of Incomer.receive/send (plain and TLS) restarts the idle "
@@ -15,6 +15,7 @@ NOT_DECIDED = "timing against real schedules; whether the application keeps serv
 
 
 def check(ctx):
+    class_default_only_as_default(ctx)
     ctx.rule("T12-refresh", "receive/send of Incomer and IncomerTls: refresh() on the data / bytes-sent path, guarded only by refreshable")
     ctx.rule("T1-idle", "closing for idleness is dominated by ix.timeout > 0.0 and ix.timer.expired")
     ctx.rule("T9-persist", "persisted => incomer.timeout = 0.0; timer = StoreTimer(store, duration=timeout)")
@@ -93,3 +94,24 @@ def resolved_timeout_reaches_servant(ctx):
                               "the servant is given the raw argument: with no explicit timeout it uses Server.Timeout (1.0 s) while "
                               "%s.timeout reports the documented default - connections silent for longer than 1 s are dropped" % cn)
         ctx.floor("T5-config:%s" % cn, k, 1)
+
+
+def class_default_only_as_default(ctx):
+    """the class constant Timeout is the default for an unconfigured server and nothing else: it is read only where .timeout is
+    resolved (`timeout if timeout is not None else self.Timeout`, in __init__); every timer duration comes from the resolved
+    .timeout (or the incomer's own .timeout)"""
+    ctx.rule("T5-default", "servers/incomers read the class constant .Timeout only in __init__; timer durations are never .Timeout")
+    k = 0
+    for modn in ("ioflo.aio.tcp.serving", "ioflo.aio.http.serving"):
+        m = ctx.repo.modules.get(modn)
+        if m is None:
+            raise AnchorError("%s not found" % modn)
+        ctx.use(m.tree)
+        for x in ast.walk(m.tree):
+            if isinstance(x, ast.Attribute) and x.attr == "Timeout" and isinstance(x.ctx, ast.Load):
+                k += 1
+                q = func_qual_of(ctx.repo, x)
+                ctx.check(q.endswith(".__init__"), "T5-default", x, "%s read in %s" % (src(x), q.split(":")[1]),
+                          "a timer re-armed with the class default instead of the configured timeout makes the configured idle "
+                          "timeout ineffective for that connection: it is dropped after the default period of silence")
+    ctx.floor("T5-default:reads", k, 4)
